@@ -7,6 +7,8 @@ Theorems about `Sop.Lifecycle` (the transcription of `Begin / Phase1Commit / Pha
 **every** call sequence (`List Op`, unbounded) and all three modes.
 
 * `ops_only_when_begun`, `committed_cannot_rollback`, `finished_is_final` hold at full strength.
+* section 5: the same statements with FAILING calls (a failure injected under any call): `ended_is_final`,
+  `lifecycle_final_with_failures`, `failed_call_outcome`; a failing phase 2 without a store panics (`C14_panic_counterexample`).
 * `readonly_never_writes` is **violated by the code**: `NewBtree` never looks at the mode. The full statement is
   `Statement_readonly_never_writes`; `C14_counterexample` refutes it with the witness the harness replays first;
   `readonly_never_writes_partial` is the strongest true version (excluding exactly the store-creating `NewBtree`).
@@ -674,5 +676,709 @@ theorem finished_is_final (s : St) (ops : List Op) (h : s.pd = 2) :
 example : (run (init .forWriting .one) [.begin, .openBtree, .store .remove, .rollback]).pd = 2 := by decide
 example : (run (init .forReading .one) [.begin, .openBtree, .store .add]).pd = 2 := by decide
 example : (run (init .noCheck .absent) [.begin, .openBtree]).pd = 2 := by decide
+
+/-! ## 5. failing calls: every lifecycle call with a failure injected under it
+
+`stepCoreF` / `stepF` (model file, second half) are the calls of sections 1–4 with a failure pattern `Fx`: the call's own
+work fails, phase 2 under `Commit` fails, the internal undo fails, an error is dropped. Theorems:
+`stepCoreF_nofault` (it is an extension of the model above), `stepCoreF_done` / `ended_is_final` /
+`lifecycle_final_with_failures` (after ANY `Rollback` or `Commit` call, successful or failing, the transaction is
+finished and frozen), `failed_call_outcome` (what state each failing call leaves), `started_stable`,
+`C14_panic_counterexample` (a failing phase 2 without a store panics: finding C14-F3). -/
+
+@[simp] theorem isOk_panic : Res.panic.isOk = false := rfl
+
+theorem rollbackTxF_none (s : St) : rollbackTxF s Fx.none = R.ofOut (rollbackTx s) := by
+  unfold rollbackTxF rollbackTx R.ofOut
+  by_cases h2 : s.pd = 2
+  · simp [h2]
+  · by_cases hb : s.hasBegun = true
+    · simp [h2, hb, Fx.none]
+    · simp [h2, hb]
+
+theorem phase1TxF_none (s : St) : phase1TxF s Fx.none = R.ofOut (phase1Tx s) := by
+  unfold phase1TxF
+  by_cases hb : s.hasBegun = true
+  · cases hm : s.mode <;> simp [hb, Fx.none, R.ofOut]
+  · simp [hb, phase1Tx, R.ofOut]
+
+theorem phase2TxF_none (s : St) : phase2TxF s false = R.ofOut (phase2Tx s) := by
+  unfold phase2TxF
+  by_cases hb : s.hasBegun = true
+  · by_cases h0 : s.pd = 0
+    · simp [hb, h0, phase2Tx, R.ofOut]
+    · cases hm : s.mode <;> simp [hb, h0, R.ofOut]
+  · simp [hb, phase2Tx, R.ofOut]
+
+theorem commitTxF_none (s : St) : commitTxF s Fx.none = R.ofOut (commitTx s) := by
+  unfold commitTxF commitTx
+  simp only [phase1TxF_none, show Fx.none.work2 = false from rfl, phase2TxF_none, rollbackTxF_none, R.ofOut]
+  split
+  · split <;> simp
+  · simp
+
+theorem newBtreeF_none (s : St) : newBtreeF s Fx.none = R.ofOut (newBtree s) := by
+  unfold newBtreeF
+  by_cases hb : s.hasBegun = true
+  · simp [hb, Fx.none]
+  · simp [hb, newBtree, R.ofOut]
+
+theorem openBtreeF_none (s : St) : openBtreeF s Fx.none = R.ofOut (openBtree s) := by
+  unfold openBtreeF
+  by_cases hb : s.hasBegun = true
+  · cases hk : s.backend with
+    | some b => simp [hb]
+    | none =>
+      by_cases hd : s.dExists = true
+      · simp [hb, hd, Fx.none]
+      · simp [hb, hd, show Fx.none.work = false from rfl, afterRollback, rollbackTxF_none, R.ofOut, openBtree, hk]
+  · simp [hb, openBtree, R.ofOut]
+
+theorem storeOpF_none (s : St) (k : Kind) : storeOpF s k Fx.none = R.ofOut (storeOp s k) := by
+  unfold storeOpF
+  by_cases hh : s.handle = true
+  · by_cases hb : s.hasBegun = true
+    · by_cases hm : (k.mutating && s.mode != .forWriting) = true
+      · simp [hh, hb, hm, afterRollback, rollbackTxF_none, R.ofOut, storeOp]
+      · cases hk : s.backend with
+        | none => simp [hh, hb, hm, storeOp, hk, R.ofOut]
+        | some b => simp [hh, hb, hm, Fx.none, R.ofOut]
+    · simp [hh, hb]
+  · simp [hh, storeOp, R.ofOut]
+
+/-- **stepCoreF_nofault**: without a failure the failing-variant model IS the model of sections 1–4 -/
+theorem stepCoreF_nofault (s : St) (op : Op) : stepCoreF s op Fx.none = R.ofOut (stepCore s op) := by
+  cases op with
+  | begin => rfl
+  | phase1 => exact phase1TxF_none s
+  | phase2 => exact phase2TxF_none s
+  | commit => exact commitTxF_none s
+  | rollback => exact rollbackTxF_none s
+  | close => rfl
+  | newBtree => exact newBtreeF_none s
+  | openBtree => exact openBtreeF_none s
+  | store k => exact storeOpF_none s k
+
+
+/-! ### a finished transaction is frozen under every failure pattern -/
+
+theorem rollbackTxF_done (s : St) (fx : Fx) (h : s.pd = 2) : rollbackTxF s fx = R.ofOut (rollbackTx s) := by
+  unfold rollbackTxF; simp [h]
+
+/-- what a call on a finished transaction answers, whatever fails: nothing changes, no write call, no failure is
+even reached (`hit = false`), and only `Rollback` (idempotent, not after a commit) and `Close` can return ok -/
+theorem stepCoreF_done (s : St) (op : Op) (fx : Fx) (h : s.pd = 2) :
+    (stepCoreF s op fx).st = s ∧ (stepCoreF s op fx).w = [] ∧ (stepCoreF s op fx).hit = false ∧
+    (stepCoreF s op fx).res ≠ .panic ∧
+    ((stepCoreF s op fx).res.isOk = true → (op = .rollback ∧ s.committed = false) ∨ op = .close) := by
+  have hb := hasBegun_done s h
+  have hr := rollbackTx_done s h
+  have hrF := rollbackTxF_done s fx h
+  cases op with
+  | begin => simp [stepCoreF, beginTx, hb, h, R.ofOut]
+  | phase1 => simp [stepCoreF, phase1TxF, hb]
+  | phase2 => simp [stepCoreF, phase2TxF, hb]
+  | commit =>
+    simp only [stepCoreF, commitTxF, phase1TxF, hb, Bool.not_false, if_true, Res.isOk, hrF, R.ofOut]
+    simp [hr]
+    split <;> simp
+  | rollback =>
+    simp only [stepCoreF, hrF, R.ofOut]
+    refine ⟨hr.1, hr.2, trivial, ?_, ?_⟩
+    · simp [rollbackTx, h]; split <;> simp
+    · intro hok
+      left
+      refine ⟨trivial, ?_⟩
+      cases hc : s.committed with
+      | false => rfl
+      | true => simp [rollbackTx, h, hc] at hok
+  | close => simp only [stepCoreF]; split <;> simp
+  | newBtree => simp [stepCoreF, newBtreeF, hb]
+  | openBtree => simp [stepCoreF, openBtreeF, hb]
+  | store k =>
+    simp only [stepCoreF, storeOpF, hb]
+    cases hh : s.handle
+    · simp
+    · simp only [Bool.not_true, Bool.false_eq_true, if_false, Bool.not_false, if_true, R.ofOut, storeOp, hh, hb]
+      cases hm : k.mutating
+      · simp [hr]; split <;> simp
+      · simp
+
+/-! ### Rollback and Commit always finish a begun transaction, whatever fails -/
+
+theorem rollbackCore_pd (s : St) : (rollbackCore s).1.pd = s.pd := (rollbackCore_J s).2
+
+theorem hasBegun_cases (s : St) (h : s.hasBegun = true) : s.pd = 0 ∨ s.pd = 1 := by
+  simp [St.hasBegun] at h; omega
+
+theorem hasBegun_of_one (s : St) (h : s.pd = 1) : s.hasBegun = true := by simp [St.hasBegun, h]
+
+theorem rollbackTxF_pd (s : St) (fx : Fx) (h : s.hasBegun = true ∨ s.pd = 2) : (rollbackTxF s fx).st.pd = 2 := by
+  unfold rollbackTxF
+  by_cases h2 : s.pd = 2
+  · simp [h2, R.ofOut, (rollbackTx_done s h2).1]
+  · have hb : s.hasBegun = true := by rcases h with h | h; exact h; exact absurd h h2
+    simp only [h2, if_false, hb, Bool.not_true, Bool.false_eq_true]
+    split <;> simp [rollbackCore_pd]
+
+theorem phase1Writer_pd (s : St) (h : s.pd = 1) : (phase1Writer s).1.pd = 1 ∨ (phase1Writer s).1.pd = 2 := by
+  unfold phase1Writer
+  split
+  · left; exact h
+  · split
+    · left; exact h
+    · split
+      · right; rfl
+      · left; exact h
+
+theorem phase1Tx_pd (s : St) (h : s.hasBegun = true) : (phase1Tx s).1.pd = 1 ∨ (phase1Tx s).1.pd = 2 := by
+  unfold phase1Tx
+  simp only [h, Bool.not_true, Bool.false_eq_true, if_false]
+  split
+  · left; rfl
+  · left; rfl
+  · exact phase1Writer_pd _ rfl
+
+theorem phase1TxF_pd (s : St) (fx : Fx) (h : s.hasBegun = true) : (phase1TxF s fx).st.pd = 1 ∨ (phase1TxF s fx).st.pd = 2 := by
+  unfold phase1TxF
+  simp only [h, Bool.not_true, Bool.false_eq_true, if_false]
+  have := phase1Tx_pd s h
+  split
+  · exact this
+  · split
+    · left; rfl
+    · exact this
+  · split
+    · right; simp [rollbackCore_pd]
+    · exact this
+
+theorem phase2TxF_pd (s : St) (work : Bool) (h : s.pd = 1 ∨ s.pd = 2) : (phase2TxF s work).st.pd = 2 := by
+  unfold phase2TxF
+  rcases h with h | h
+  · have hb := hasBegun_of_one s h
+    have h0 : ¬ s.pd = 0 := by omega
+    simp only [hb, Bool.not_true, Bool.false_eq_true, if_false, h0]
+    unfold phase2Tx
+    simp only [hb, Bool.not_true, Bool.false_eq_true, if_false, h0]
+    split
+    · split
+      · split <;> simp [rollbackCore_pd]
+      · simp [R.ofOut]
+    · simp [R.ofOut]
+  · simp [hasBegun_done s h, h]
+
+theorem commitTxF_pd (s : St) (fx : Fx) (h : s.hasBegun = true ∨ s.pd = 2) : (commitTxF s fx).st.pd = 2 := by
+  have h1 : (phase1TxF s fx).st.pd = 1 ∨ (phase1TxF s fx).st.pd = 2 := by
+    rcases h with h | h
+    · exact phase1TxF_pd s fx h
+    · right; simp [phase1TxF, hasBegun_done s h, h]
+  unfold commitTxF
+  simp only
+  have h2 := phase2TxF_pd (phase1TxF s fx).st fx.work2 h1
+  split
+  · split
+    · exact h2
+    · exact rollbackTxF_pd _ fx (Or.inr h2)
+  · apply rollbackTxF_pd
+    rcases h1 with h1 | h1
+    · left; exact hasBegun_of_one _ h1
+    · right; exact h1
+
+/-- **ender_finishes**: `Rollback` and `Commit`, called on a transaction that has been begun (still running or already
+finished), leave `phaseDone = 2` — whether they succeed, whether phase 1, phase 2 or the internal undo fails -/
+theorem ender_finishes (s : St) (op : Op) (fx : Fx) (hop : op = .rollback ∨ op = .commit)
+    (h : s.hasBegun = true ∨ s.pd = 2) : (stepCoreF s op fx).st.pd = 2 := by
+  rcases hop with rfl | rfl
+  · exact rollbackTxF_pd s fx h
+  · exact commitTxF_pd s fx h
+
+/-! ### sequences with failures -/
+
+theorem St.writes_add_zero (s : St) : { s with writes := s.writes + 0 } = s := by cases s; rfl
+
+/-- one call on a finished transaction, with any failure pattern -/
+theorem stepF_done (s : FSt) (op : Op) (fx : Fx) (h : s.st.pd = 2) :
+    (stepF s op fx).1 = s ∧ (stepF s op fx).2.2 = some [] ∧ (stepF s op fx).2.1 ≠ .panic ∧
+    ((stepF s op fx).2.1.isOk = true → (op = .rollback ∧ s.st.committed = false) ∨ op = .close) := by
+  obtain ⟨h1, h2, h3, h4, h5⟩ := stepCoreF_done s.st op fx h
+  have hb := hasBegun_done s.st h
+  unfold stepF
+  simp only [h1, h2, h3, hb, List.length_nil, Bool.and_false, Bool.or_false, St.writes_add_zero]
+  exact ⟨trivial, by simp, h4, h5⟩
+
+theorem runF_done (s : FSt) (cs : List (Op × Fx)) (h : s.st.pd = 2) : runF s cs = s := by
+  induction cs with
+  | nil => rfl
+  | cons c cs ih => simp only [runF, (stepF_done s c.1 c.2 h).1, ih]
+
+theorem traceF_done (s : FSt) (cs : List (Op × Fx)) (h : s.st.pd = 2) :
+    ∀ e ∈ traceF s cs, e.pre = s ∧ e.post = s ∧ e.w = some [] ∧ e.res ≠ .panic ∧
+      (e.res.isOk = true → (e.op = .rollback ∧ s.st.committed = false) ∨ e.op = .close) := by
+  induction cs with
+  | nil => intro e he; simp [traceF] at he
+  | cons c cs ih =>
+    intro e he
+    simp only [traceF, List.mem_cons] at he
+    obtain ⟨h1, h2, h3, h4⟩ := stepF_done s c.1 c.2 h
+    rcases he with rfl | he
+    · exact ⟨rfl, h1, h2, h3, h4⟩
+    · rw [h1] at he
+      exact ih e he
+
+/-- the transaction has been begun: it is running or it is finished -/
+def Started (s : St) : Prop := s.hasBegun = true ∨ s.pd = 2
+
+/-- **ended_is_final** (the lifecycle statement at full strength, failures included): take ANY state in which the
+transaction has been begun, ANY call of `Rollback` or `Commit` with ANY failure pattern (phase 1 fails, phase 2 fails,
+the internal undo fails — e.g. the removal of a store the transaction created is refused —, an error is dropped),
+and ANY continuation of calls, each again with any failure pattern. Then right after that call `phaseDone = 2`, and in
+the continuation: nothing changes any more (lifecycle fields, what is on disk, the write counter, the
+unpredicted-flag), no call issues a data write call (`some []`: predicted, and empty), no failure is even reached, no
+call panics, and no call is accepted except `Rollback` (idempotent, only when not committed) and `Close`. -/
+theorem ended_is_final (s : FSt) (op : Op) (fx : Fx) (rest : List (Op × Fx))
+    (hop : op = .rollback ∨ op = .commit) (h : Started s.st) :
+    (stepF s op fx).1.st.pd = 2 ∧
+    runF (stepF s op fx).1 rest = (stepF s op fx).1 ∧
+    ∀ e ∈ traceF (stepF s op fx).1 rest,
+      e.post = (stepF s op fx).1 ∧ e.w = some [] ∧ e.res ≠ .panic ∧
+      (e.res.isOk = true → (e.op = .rollback ∧ (stepF s op fx).1.st.committed = false) ∨ e.op = .close) := by
+  have hpd : (stepF s op fx).1.st.pd = 2 := by
+    have := ender_finishes s.st op fx hop h
+    simpa [stepF] using this
+  refine ⟨hpd, runF_done _ rest hpd, ?_⟩
+  intro e he
+  obtain ⟨_, h2, h3, h4, h5⟩ := traceF_done _ rest hpd e he
+  exact ⟨h2, h3, h4, h5⟩
+
+/-! ### from the initial state: `phaseDone` only ever moves -1 → 0 → 1 → 2 -/
+
+/-- `b` is `a` or one of 0, 1, 2 -/
+def P4 (a b : Int) : Prop := b = a ∨ b = 0 ∨ b = 1 ∨ b = 2
+
+theorem P4.refl (a : Int) : P4 a a := Or.inl rfl
+theorem P4.trans {a b c : Int} (h1 : P4 a b) (h2 : P4 b c) : P4 a c := by
+  unfold P4 at *; omega
+
+theorem rollbackTx_p4 (s : St) : P4 s.pd (rollbackTx s).1.pd := by
+  unfold rollbackTx
+  split
+  · split <;> exact P4.refl _
+  · split
+    · exact P4.refl _
+    · simp [P4, rollbackCore_pd]
+
+theorem rollbackTxF_p4 (s : St) (fx : Fx) : P4 s.pd (rollbackTxF s fx).st.pd := by
+  unfold rollbackTxF
+  split
+  · exact rollbackTx_p4 s
+  · split
+    · exact rollbackTx_p4 s
+    · split <;> simp [P4, rollbackCore_pd]
+
+theorem phase1Writer_p4 (s : St) : P4 s.pd (phase1Writer s).1.pd := by
+  unfold phase1Writer
+  split
+  · exact P4.refl _
+  · split
+    · exact P4.refl _
+    · split
+      · simp [P4]
+      · exact P4.refl _
+
+theorem phase1Tx_p4 (s : St) : P4 s.pd (phase1Tx s).1.pd := by
+  unfold phase1Tx
+  split
+  · exact P4.refl _
+  · split
+    · simp [P4]
+    · simp [P4]
+    · have := phase1Writer_p4 { s with pd := 1 }
+      simp only [P4] at *
+      omega
+
+theorem phase1TxF_p4 (s : St) (fx : Fx) : P4 s.pd (phase1TxF s fx).st.pd := by
+  unfold phase1TxF
+  split
+  · exact P4.refl _
+  · split
+    · exact phase1Tx_p4 s
+    · split
+      · simp [P4]
+      · exact phase1Tx_p4 s
+    · split
+      · simp [P4, rollbackCore_pd]
+      · exact phase1Tx_p4 s
+
+theorem phase2Tx_p4 (s : St) : P4 s.pd (phase2Tx s).1.pd := by
+  unfold phase2Tx
+  split
+  · exact P4.refl _
+  · split
+    · exact P4.refl _
+    · split <;> simp [P4]
+
+theorem phase2TxF_p4 (s : St) (work : Bool) : P4 s.pd (phase2TxF s work).st.pd := by
+  unfold phase2TxF
+  split
+  · exact P4.refl _
+  · split
+    · exact P4.refl _
+    · split
+      · split
+        · split <;> simp [P4, rollbackCore_pd]
+        · exact phase2Tx_p4 s
+      · exact phase2Tx_p4 s
+
+theorem commitTxF_p4 (s : St) (fx : Fx) : P4 s.pd (commitTxF s fx).st.pd := by
+  unfold commitTxF
+  simp only
+  have h1 := phase1TxF_p4 s fx
+  have h2 := phase2TxF_p4 (phase1TxF s fx).st fx.work2
+  split
+  · split
+    · exact h1.trans h2
+    · exact (h1.trans h2).trans (rollbackTxF_p4 _ fx)
+  · exact h1.trans (rollbackTxF_p4 _ fx)
+
+theorem afterRollback_st (rb : R) (e : Err) (w : List W) (hit : Bool) : (afterRollback rb e w hit).st = rb.st := rfl
+
+theorem newBtree_pd (s : St) : (newBtree s).1.pd = s.pd := by
+  unfold newBtree
+  split
+  · rfl
+  · split
+    · rfl
+    · split <;> rfl
+
+theorem openBtree_p4 (s : St) : P4 s.pd (openBtree s).1.pd := by
+  unfold openBtree
+  split
+  · exact P4.refl _
+  · split
+    · exact P4.refl _
+    · split
+      · exact rollbackTx_p4 s
+      · exact P4.refl _
+
+theorem storeOp_p4 (s : St) (k : Kind) : P4 s.pd (storeOp s k).1.pd := by
+  unfold storeOp
+  split
+  · exact P4.refl _
+  · split
+    · split
+      · exact P4.refl _
+      · exact rollbackTx_p4 s
+    · split
+      · exact rollbackTx_p4 s
+      · split <;> exact P4.refl _
+
+theorem stepCoreF_p4 (s : St) (op : Op) (fx : Fx) : P4 s.pd (stepCoreF s op fx).st.pd := by
+  cases op with
+  | begin =>
+    simp only [stepCoreF, beginTx, R.ofOut]
+    split
+    · exact P4.refl _
+    · split
+      · exact P4.refl _
+      · simp [P4]
+  | phase1 => exact phase1TxF_p4 s fx
+  | phase2 => exact phase2TxF_p4 s fx.work
+  | commit => exact commitTxF_p4 s fx
+  | rollback => exact rollbackTxF_p4 s fx
+  | close => simp only [stepCoreF]; split <;> exact P4.refl _
+  | newBtree =>
+    simp only [stepCoreF, newBtreeF]
+    split
+    · exact P4.refl _
+    · split
+      · rw [afterRollback_st]; exact rollbackTxF_p4 s fx
+      · simp [R.ofOut, newBtree_pd, P4]
+  | openBtree =>
+    simp only [stepCoreF, openBtreeF]
+    split
+    · exact P4.refl _
+    · split
+      · exact openBtree_p4 s
+      · split
+        · rw [afterRollback_st]; exact rollbackTxF_p4 s fx
+        · split
+          · rw [afterRollback_st]; exact rollbackTxF_p4 s fx
+          · exact openBtree_p4 s
+  | store k =>
+    simp only [stepCoreF, storeOpF]
+    split
+    · exact P4.refl _
+    · split
+      · exact storeOp_p4 s k
+      · split
+        · rw [afterRollback_st]; exact rollbackTxF_p4 s fx
+        · split
+          · exact P4.refl _
+          · split
+            · rw [afterRollback_st]; exact rollbackTxF_p4 s fx
+            · exact storeOp_p4 s k
+
+theorem started_iff (s : St) : Started s ↔ (s.pd = 0 ∨ s.pd = 1 ∨ s.pd = 2) := by
+  unfold Started St.hasBegun
+  constructor
+  · intro h
+    rcases h with h | h
+    · simp at h; omega
+    · omega
+  · intro h
+    by_cases h2 : s.pd = 2
+    · right; exact h2
+    · left; simp; omega
+
+/-- once begun, always begun-or-finished: no call, no failure takes the transaction back to "not begun" -/
+theorem started_stable (s : St) (op : Op) (fx : Fx) (h : Started s) : Started (stepCoreF s op fx).st := by
+  rw [started_iff] at *
+  have := stepCoreF_p4 s op fx
+  unfold P4 at this; omega
+
+/-- reachable states: never begun (`phaseDone = -1`), or begun -/
+def Reach (s : St) : Prop := s.pd = -1 ∨ Started s
+
+theorem reach_step (s : St) (op : Op) (fx : Fx) (h : Reach s) : Reach (stepCoreF s op fx).st := by
+  unfold Reach at *
+  rw [started_iff] at *
+  have := stepCoreF_p4 s op fx
+  unfold P4 at this; omega
+
+theorem reach_run (s : FSt) (cs : List (Op × Fx)) (h : Reach s.st) : Reach (runF s cs).st := by
+  induction cs generalizing s with
+  | nil => exact h
+  | cons c cs ih =>
+    apply ih
+    have := reach_step s.st c.1 c.2 h
+    simpa [stepF, Reach, Started, St.hasBegun] using this
+
+/-- `Begin` has no failing variant: it reaches no backend (`onIdle` returns at once while no store is attached, and no
+store can be attached before `Begin`), so no failure pattern changes what it does -/
+theorem begin_has_no_failing_variant (s : St) (fx : Fx) : stepCoreF s .begin fx = stepCoreF s .begin Fx.none := rfl
+
+/-- a successful `Begin` starts the transaction -/
+theorem begin_ok_started (s : St) (fx : Fx) (h : (stepCoreF s .begin fx).res.isOk = true) :
+    (stepCoreF s .begin fx).st.pd = 0 := by
+  simp only [stepCoreF, beginTx, R.ofOut] at *
+  split at h
+  · simp at h
+  · split at h
+    · simp at h
+    · rename_i h1 h2; simp [h1, h2]
+
+/-- on a transaction that was never begun, `Rollback` and `Commit` are refused and change nothing, whatever fails -/
+theorem not_begun_refused (s : St) (op : Op) (fx : Fx) (hop : op = .rollback ∨ op = .commit) (h : s.pd = -1) :
+    (stepCoreF s op fx).st = s ∧ (stepCoreF s op fx).res.isOk = false ∧ (stepCoreF s op fx).w = [] ∧
+    (stepCoreF s op fx).hit = false := by
+  have hb : s.hasBegun = false := by simp [St.hasBegun, h]
+  have h2 : ¬ s.pd = 2 := by omega
+  have hr : rollbackTxF s fx = ⟨s, .err .notBegun, [], false⟩ := by
+    simp [rollbackTxF, rollbackTx, h2, hb, R.ofOut]
+  rcases hop with rfl | rfl
+  · simp [stepCoreF, hr]
+  · simp [stepCoreF, commitTxF, phase1TxF, hb, hr]
+
+theorem init_reach (m : Mode) (i : Init) : Reach (initF m i).st := Or.inl rfl
+
+/-- **lifecycle_final_with_failures**: from the initial state of any mode and initial condition, after ANY sequence of
+calls and failures, a call of `Rollback` or `Commit` (with any failure pattern) either finds a transaction that was
+never begun — then it is refused and changes nothing — or leaves the transaction finished, and then the whole
+continuation (any calls, any failures) is frozen as in `ended_is_final`: nothing changes, not one data write call,
+nothing accepted but an idempotent `Rollback` and `Close`, no panic. -/
+theorem lifecycle_final_with_failures (m : Mode) (i : Init) (pre : List (Op × Fx)) (op : Op) (fx : Fx)
+    (post : List (Op × Fx)) (hop : op = .rollback ∨ op = .commit) :
+    let s := runF (initF m i) pre
+    let s' := (stepF s op fx).1
+    (s.st.pd = -1 ∧ s'.st = s.st ∧ (stepF s op fx).2.1.isOk = false ∧ (stepF s op fx).2.2 = some []) ∨
+    (Started s.st ∧ s'.st.pd = 2 ∧ runF s' post = s' ∧
+      ∀ e ∈ traceF s' post, e.post = s' ∧ e.w = some [] ∧ e.res ≠ .panic ∧
+        (e.res.isOk = true → (e.op = .rollback ∧ s'.st.committed = false) ∨ e.op = .close)) := by
+  intro s s'
+  have hr : Reach s.st := reach_run _ pre (init_reach m i)
+  rcases hr with h | h
+  · left
+    obtain ⟨h1, h2, h3, h4⟩ := not_begun_refused s.st op fx hop h
+    have hb : s.st.hasBegun = false := by simp [St.hasBegun, h]
+    refine ⟨h, ?_, ?_, ?_⟩
+    · show (stepF s op fx).1.st = s.st
+      simp [stepF, h1, h3]
+    · simpa [stepF] using h2
+    · simp [stepF, h3, h4, hb]
+  · right
+    obtain ⟨a, b, c⟩ := ended_is_final s op fx post hop h
+    exact ⟨h, a, b, c⟩
+
+/-! ### what state a FAILING call leaves -/
+
+theorem phase1Writer_err_pd (s : St) (h : (phase1Writer s).2.1.isOk = false) : (phase1Writer s).1.pd = 2 := by
+  unfold phase1Writer at h ⊢
+  cases hk : s.backend with
+  | none => simp [hk] at h
+  | some b =>
+    simp only [hk] at h ⊢
+    by_cases h1 : (!b.tracked) = true
+    · simp [h1] at h
+    · by_cases h2 : s.p1Nodes = true
+      · simp [h1, h2]
+      · simp [h1, h2] at h
+
+/-- **failed_call_outcome**: a call that does not return ok (an error of any kind, a refusal, a panic) leaves the
+lifecycle in one of exactly three situations, whatever failed underneath: (1) nothing changed at all (a guard refused
+the call, or `Close` failed); (2) the transaction is finished (`phaseDone = 2`): every failing `Rollback`, `Commit`,
+`Phase2Commit`, writer `Phase1Commit`, `NewBtree`, `OpenBtree`, B-tree call ends there; (3) it was the `Phase1Commit`
+of a reader whose check failed: `phaseDone = 1`, still begun, nothing else changed — the caller has to roll back
+(`SinglePhaseTransaction.Commit` does). -/
+theorem failed_call_outcome (s : St) (op : Op) (fx : Fx) (h : (stepCoreF s op fx).res.isOk = false) :
+    (stepCoreF s op fx).st = s ∨ (stepCoreF s op fx).st.pd = 2 ∨
+    (op = .phase1 ∧ s.mode = .forReading ∧ s.hasBegun = true ∧ (stepCoreF s op fx).st = { s with pd := 1 }) := by
+  by_cases hb : s.hasBegun = true
+  · -- a begun transaction
+    have hs : Started s := Or.inl hb
+    cases op with
+    | begin => left; simp [stepCoreF, beginTx, hb, R.ofOut]
+    | phase1 =>
+      simp only [stepCoreF] at h ⊢
+      cases hm : s.mode with
+      | noCheck =>
+        have e : phase1TxF s fx = R.ofOut (phase1Tx s) := by simp [phase1TxF, hb, hm]
+        rw [e] at h; simp [phase1Tx, hb, hm, R.ofOut] at h
+      | forReading =>
+        by_cases hw : (fx.work && readerWorks s) = true
+        · right; right; simp [phase1TxF, hb, hm, hw]
+        · have e : phase1TxF s fx = R.ofOut (phase1Tx s) := by simp [phase1TxF, hb, hm, hw]
+          rw [e] at h; simp [phase1Tx, hb, hm, R.ofOut] at h
+      | forWriting =>
+        right; left
+        by_cases hw : (fx.work && p1Works s) = true
+        · simp [phase1TxF, hb, hm, hw, rollbackCore_pd]
+        · have e : (phase1TxF s fx).st = (phase1Tx s).1 ∧ (phase1TxF s fx).res = (phase1Tx s).2.1 := by
+            simp [phase1TxF, hb, hm, hw]
+          rw [e.2] at h
+          rw [e.1]
+          simp only [phase1Tx, hb, hm, Bool.not_true, Bool.false_eq_true, if_false] at h ⊢
+          exact phase1Writer_err_pd _ h
+    | phase2 =>
+      simp only [stepCoreF] at *
+      by_cases h0 : s.pd = 0
+      · left; simp [phase2TxF, hb, h0]
+      · right; left
+        apply phase2TxF_pd
+        rcases hasBegun_cases s hb with h' | h'
+        · exact absurd h' h0
+        · left; exact h'
+    | commit => right; left; exact commitTxF_pd s fx hs
+    | rollback => right; left; exact rollbackTxF_pd s fx hs
+    | close => left; simp only [stepCoreF]; split <;> rfl
+    | newBtree =>
+      simp only [stepCoreF, newBtreeF, hb, Bool.not_true, Bool.false_eq_true, if_false] at h ⊢
+      by_cases hw : fx.work = true
+      · right; left; simp only [hw, if_true, afterRollback_st]; exact rollbackTxF_pd s fx hs
+      · simp only [hw, Bool.false_eq_true, if_false, R.ofOut] at h
+        unfold newBtree at h
+        simp only [hb, Bool.not_true, Bool.false_eq_true, if_false] at h
+        split at h
+        · simp at h
+        · split at h <;> simp at h
+    | openBtree =>
+      simp only [stepCoreF, openBtreeF, hb, Bool.not_true, Bool.false_eq_true, if_false] at h ⊢
+      cases hk : s.backend with
+      | some b => simp [hk, openBtree, hb, R.ofOut] at h
+      | none =>
+        simp only [hk] at h ⊢
+        by_cases hw : fx.work = true
+        · right; left; simp only [hw, if_true, afterRollback_st]; exact rollbackTxF_pd s fx hs
+        · by_cases hd : s.dExists = true
+          · simp [hw, hd, openBtree, hb, hk, R.ofOut] at h
+          · right; left
+            simp only [hw, hd, Bool.false_eq_true, if_false, Bool.not_false, if_true, afterRollback_st]
+            exact rollbackTxF_pd s fx hs
+    | store k =>
+      simp only [stepCoreF, storeOpF, hb, Bool.not_true, Bool.false_eq_true, if_false] at h ⊢
+      by_cases hh : s.handle = true
+      · simp only [hh, Bool.not_true, Bool.false_eq_true, if_false] at h ⊢
+        by_cases hm : (k.mutating && s.mode != .forWriting) = true
+        · right; left; simp only [hm, if_true, afterRollback_st]; exact rollbackTxF_pd s fx hs
+        · simp only [hm, Bool.false_eq_true, if_false] at h ⊢
+          cases hk : s.backend with
+          | none => left; rfl
+          | some b =>
+            simp only [hk] at h ⊢
+            by_cases hw : (fx.work && b.localCount != 0) = true
+            · right; left; simp only [hw, if_true, afterRollback_st]; exact rollbackTxF_pd s fx hs
+            · simp [hw, storeOp, hh, hb, hm, hk] at h
+      · left; simp [hh]
+  · -- not begun (never begun, or finished): every call is refused or changes nothing
+    have hb' : s.hasBegun = false := by simpa using hb
+    by_cases h2 : s.pd = 2
+    · left; exact (stepCoreF_done s op fx h2).1
+    · have hr : rollbackTxF s fx = ⟨s, .err .notBegun, [], false⟩ := by
+        simp [rollbackTxF, rollbackTx, h2, hb', R.ofOut]
+      have hr0 : rollbackTx s = (s, .err .notBegun, []) := by simp [rollbackTx, h2, hb']
+      cases op with
+      | begin =>
+        simp only [stepCoreF, beginTx, hb', h2, R.ofOut] at h
+        simp at h
+      | phase1 => left; simp [stepCoreF, phase1TxF, hb']
+      | phase2 => left; simp [stepCoreF, phase2TxF, hb']
+      | commit => left; simp [stepCoreF, commitTxF, phase1TxF, hb', hr]
+      | rollback => left; simp [stepCoreF, hr]
+      | close => left; simp only [stepCoreF]; split <;> rfl
+      | newBtree => left; simp [stepCoreF, newBtreeF, hb']
+      | openBtree => left; simp [stepCoreF, openBtreeF, hb']
+      | store k =>
+        left
+        simp only [stepCoreF, storeOpF, hb']
+        cases hh : s.handle
+        · simp
+        · simp only [Bool.not_true, Bool.false_eq_true, if_false, Bool.not_false, if_true, R.ofOut, storeOp, hh, hb']
+          cases hm : k.mutating <;> simp [hr0]
+
+
+/-! ### witnesses (non-vacuity) and the panic -/
+
+/-- the undo fails -/
+def fxUndo : Fx := ⟨false, false, true, false⟩
+/-- phase 1 (or the call's own work) fails -/
+def fxWork : Fx := ⟨true, false, false, false⟩
+/-- phase 2 under `Commit` fails -/
+def fxWork2 : Fx := ⟨false, true, false, false⟩
+
+/-- a writer creates a store, adds an item, calls `Rollback`, and the removal of the created store is refused:
+`Rollback` reports "rollback failed", the transaction is finished, the `add` and `Commit` that follow are refused
+and write nothing -/
+def wit5 : FSt := runF (initF .forWriting .absent) [(.begin, Fx.none), (.newBtree, Fx.none), (.store .add, Fx.none)]
+
+theorem failing_rollback_witness :
+    wit5.st.hasBegun = true ∧ (stepF wit5 .rollback fxUndo).2.1 = .err .rollbackFailed ∧
+    (stepF wit5 .rollback fxUndo).1.st.pd = 2 ∧
+    (traceF (stepF wit5 .rollback fxUndo).1 [(.store .add, Fx.none), (.commit, fxWork), (.begin, Fx.none)]).map
+        (fun e => (e.res, e.w)) =
+      [(.err .notBegun, some []), (.err .notBegun, some []), (.err .done, some [])] := by
+  decide
+
+/-- `Commit` failing in phase 1, in phase 2, a reader's failing check followed by `Commit`'s own `Rollback`: all finish -/
+example : (stepF (runF (initF .forWriting .one) [(.begin, Fx.none), (.openBtree, Fx.none), (.store .update, Fx.none)])
+    .commit fxWork).1.st.pd = 2 := by decide
+example : (stepF (runF (initF .forWriting .one) [(.begin, Fx.none), (.openBtree, Fx.none), (.store .update, Fx.none)])
+    .commit fxWork2).2.1 = .err .other := by decide
+example : (stepF (runF (initF .forReading .one) [(.begin, Fx.none), (.openBtree, Fx.none), (.store .get, Fx.none)])
+    .phase1 fxWork).1.st.pd = 1 := by decide
+example : (stepF (runF (initF .forReading .one) [(.begin, Fx.none), (.openBtree, Fx.none), (.store .get, Fx.none)])
+    .commit fxWork).1.st.pd = 2 := by decide
+
+/-- full-strength statement: no call ever panics -/
+def Statement_no_panic : Prop :=
+  ∀ (m : Mode) (i : Init) (cs : List (Op × Fx)), ∀ e ∈ traceF (initF m i) cs, e.res ≠ .panic
+
+/-- **C14_panic_counterexample** (finding C14-F3): a writer transaction with no store attached whose phase 2 fails
+(`log(finalizeCommit)` refused by the transaction log): `Transaction.rollback` indexes `btreesBackend[0]` and
+panics. Replayed on the real code by the harness (`begin, commit!tlog.add#1`). After the panic (`defer t.Close()` has
+run, `phaseDone = 2`) the transaction is finished like after any other `Commit` call (`ended_is_final` covers it). -/
+theorem C14_panic_counterexample : ¬ Statement_no_panic := by
+  intro h
+  have := h .forWriting .absent [(.begin, Fx.none), (.commit, fxWork2)]
+  revert this
+  decide
 
 end Sop.C14
